@@ -226,6 +226,14 @@ func (h *host) register() {
 		h.fnLog = append(h.fnLog, "noret()")
 		return nil, nil
 	})
+	// clamp: a host function that changes the value it is given, in place (only ever called with a bare variable). The value
+	// is the function's own: neither the variable nor any checkpoint moves.
+	h.dr.AddFunction("clamp", func(args []*variable.Value) (*variable.Value, error) {
+		if len(args) == 1 && args[0].Number != nil {
+			*args[0].Number = 1
+		}
+		return variable.NewNumber(0), nil
+	})
 	h.dr.AddFunction("eoferr", func(args []*variable.Value) (*variable.Value, error) {
 		return nil, fmt.Errorf("reading the save file: %w", io.EOF)
 	})
